@@ -212,6 +212,21 @@ def validate_trace(module_dir, module, cfg, trace_path, timeout=600, heap="3g", 
     return r.rc == 0, r
 
 
+def tlaps(module_dir, module, timeout=900, threads=8):
+    """Check a TLAPS proof module (spec/<module_dir>/<module>.tla) with tlapm in a scratch copy of the spec directory.
+    Returns the number of proved obligations; raises ToolError if any obligation fails."""
+    src = os.path.join(SPEC, module_dir)
+    d = os.path.join(WORK, "tlaps_" + module)
+    shutil.rmtree(d, ignore_errors=True)
+    shutil.copytree(src, d)
+    p = sh(["tlapm", "--threads", str(threads), module + ".tla"], cwd=d, timeout=timeout)
+    out = p.stdout + p.stderr
+    m = re.search(r"All (\d+) obligations? proved", out)
+    if p.returncode != 0 or not m:
+        raise ToolError("TLAPS proof %s/%s does not go through:\n%s" % (module_dir, module, out[-2500:]))
+    return int(m.group(1))
+
+
 def validate_trace_by_run(module_dir, module, cfg, events, wd, tag, chunk=1500, heap="3g"):
     """Trace validation of a long event log whose runs (field `run`) are independent of each other: whole runs are
     packed into chunks of about `chunk` events and each chunk is validated separately (the spec's state grows with
